@@ -9,6 +9,7 @@ from hypothesis import strategies as st
 from .. import oracles
 from ..audio import MAXV, MIX, _h
 from ..common import HarnessError, Violation, hyp_run, import_auditok
+from ..gen import rarely
 
 import_auditok()
 from auditok.util import AudioEnergyValidator  # noqa: E402
@@ -28,7 +29,7 @@ RULE = (
     "threshold, or |E-thr| < 3 dB, or width != 2."
 )
 MUST_HIT = ["boundary_sw1", "boundary_sw2", "boundary_sw4", "any_vs_mix_disagree", "negative_index",
-            "reject_index", "reject_name", "mono_ignores_selection", "zero_window"]
+            "reject_index", "reject_name", "mono_ignores_selection", "zero_window", "window_length_around_power_of_two"]
 ASSUMPTIONS = [
     "for |x|=10^k constant windows numpy's sqrt/mean/log10 are exact on this build (verified at design time; a mismatch would show as a violation of the boundary cases, to be investigated)",
     "decision not compared when the exact energy lies within 1e-9 dB of the threshold",
@@ -133,6 +134,8 @@ def check_case(case, rec):
     lo, hi = min(t1, t2), max(t1, t2)
     if got[hi] and not got[lo]:
         raise Violation(f"active at threshold {hi!r} but inactive at lower threshold {lo!r}", case)
+    if case.get("magic_len"):
+        classes.add("window_length_around_power_of_two")
     near = abs(float(E) - t1) < 3
     disagree = False
     if ch > 1:
@@ -160,6 +163,8 @@ def explicit_cases():
         {"sw": 2, "ch": 2, "vals": [1, 2], "uc": 2, "thr": ["abs", 0.0], "thr2": ["abs", 0.0]},
         {"sw": 2, "ch": 3, "vals": [1, 2, 3], "uc": -4, "thr": ["abs", 0.0], "thr2": ["abs", 0.0]},
         {"sw": 4, "ch": 2, "vals": [1, 2], "uc": "left", "thr": ["abs", 0.0], "thr2": ["abs", 0.0]},
+        {"sw": 2, "ch": 2, "vals": [300, -2, -300, 5] * 512, "uc": None, "thr": ["rel", -0.5], "thr2": ["rel", 0.5], "magic_len": 1024},
+        {"sw": 1, "ch": 1, "vals": [100, -100, 7] * 85 + [100, -100], "uc": None, "thr": ["abs", 30.0], "thr2": ["rel", 1e-6], "magic_len": 257},
     ]
     return out
 
@@ -194,6 +199,12 @@ def strategy(draw, maxn):
     if how == 1:
         return {"sw": sw, "ch": ch, "n": draw(st.integers(1, 40)), "zero": True, "uc": uc}
     n = draw(st.integers(1, 8) | st.integers(1, maxn))
+    if draw(rarely(25)):
+        # window lengths around powers of two, filled by repeating a short drawn motif
+        n = draw(st.sampled_from([255, 256, 257, 1023, 1024, 1025, 4095, 4096, 4097]))
+        motif = draw(st.lists(sample_value(sw), min_size=ch, max_size=ch * 5).filter(lambda m: len(m) % ch == 0))
+        vals = (motif * (n * ch // len(motif) + 1))[: n * ch]
+        return {"sw": sw, "ch": ch, "vals": vals, "uc": uc, "thr": draw(thr_spec()), "thr2": draw(thr_spec()), "magic_len": n}
     if how == 2:  # channels with very different levels: selection modes disagree
         big = draw(st.integers(MAXV[sw] // 8, MAXV[sw]))
         loudch = draw(st.integers(0, ch - 1))
